@@ -253,7 +253,7 @@ impl Aml for Iommu {
         // Revision
         sink.byte(1);
         // Length
-        sink.word(self.len() as u16);
+        sink.word(u16::try_from(self.len()).unwrap());
         // ID
         sink.word(self.id);
         // Model
@@ -269,7 +269,7 @@ impl Aml for Iommu {
         // Proximity Domain
         sink.dword(self.proximity_domain.unwrap_or(0));
         // Number of Interrupt Wires
-        sink.word(self.num_int_wires() as u16);
+        sink.word(u16::try_from(self.num_int_wires()).unwrap());
         // Interrupt Wire Array Offset
         sink.word(Self::INTERRUPT_WIRE_OFFSET);
         // Interrupt Wire Array
@@ -405,7 +405,7 @@ impl Aml for PcieRootComplex {
         // Revision
         sink.byte(1);
         // Length
-        sink.word(self.len() as u16);
+        sink.word(u16::try_from(self.len()).unwrap());
         // ID
         sink.word(self.id);
         // PCI Segment number
@@ -415,7 +415,7 @@ impl Aml for PcieRootComplex {
         // ID Mapping Array Offset
         sink.word(Self::ID_MAPPING_OFFSET);
         // Number of ID Mappings
-        sink.word(self.num_id_mappings() as u16);
+        sink.word(u16::try_from(self.num_id_mappings()).unwrap());
         // ID Mapping Array
         if let Some(id_mappings) = self.id_mappings.as_ref() {
             for id_mapping in id_mappings {
@@ -467,15 +467,15 @@ impl Aml for Platform {
         // Revision
         sink.byte(1);
         // Length
-        sink.word(self.len() as u16);
+        sink.word(u16::try_from(self.len()).unwrap());
         // ID
         sink.word(self.id);
         // Reserved
         sink.word(0);
         // ID Mapping Array Offset
-        sink.word(self.id_mapping_offset() as u16);
+        sink.word(u16::try_from(self.id_mapping_offset()).unwrap());
         // Number of ID Mappings
-        sink.word(self.num_id_mappings() as u16);
+        sink.word(u16::try_from(self.num_id_mappings()).unwrap());
         // Name
         for b in self.name.as_bytes() {
             sink.byte(*b);
